@@ -170,7 +170,7 @@ def cfg_name(cfg):
 def script_text(s, goals, backend, timeout_ms, with_values=True, extra_asserts=(), check_pc=False):
     L = []
     if backend == "z3":
-        L.append(f"(set-option :timeout {timeout_ms})")
+        L.append(f"(set-option :timeout {timeout_ms * smt.WALL_FACTOR})")       # safety net; the budget is rlimit (smt.py)
     L.append("(set-logic ALL)")
     for u in s["usorts"]:
         L.append(f"(declare-sort {u} 0)")
@@ -470,6 +470,8 @@ def main(argv=None):
     seed = int(os.environ.get("VERIF_SEED", "0") or 0)
     tier = args.tier
     timeout_s = 10 if tier == "quick" else 60
+    if os.environ.get("VERIF_TIMEOUT"):
+        timeout_s = float(os.environ["VERIF_TIMEOUT"])
     try:
         rc = run(prop, tier, seed, timeout_s, args, t_start)
     except SystemExit:
